@@ -8,7 +8,13 @@ Two more arrangements drive the server through its real entry point BlobServer.s
 in-memory net): (vi) one request byte string per connection under a catalogue of fragmentations - the server's verdict on it
 (answered / refused) must not depend on where the stream was cut (X7); (vii) a link with a finite send window (asyncio's
 pause_writing/resume_writing contract) and a server configured with idle_timeout != transfer_timeout: a slow honest reader, a reader
-that stalls mid-blob, a silent connection (X8)."""
+that stalls mid-blob, a silent connection (X8).
+(viii) relay: in the race and pair arrangements (and for the first blob of (ix)) the node that has just downloaded the blob becomes the
+server - a third node asks it for the blob over the real BlobServerProtocol; the header on the wire must name exactly the hash and the
+length, and the third node must end with the verified blob (X9).  (ix) stream: ONE real BlobDownloader fetches several blobs in a row (as
+a stream download does) from honest servers each holding only part of them and, in half of the cases, a scripted peer that serves its
+first request(s) on every connection honestly and misbehaves afterwards: every blob an honest reachable server holds must end verified
+(X10) - connections that are kept between blobs, peers set aside for a while and taken back are the history under test."""
 import asyncio
 import hashlib
 import json
@@ -16,6 +22,7 @@ import os
 import random
 import shutil
 import tempfile
+import time
 
 from vlib import boot, vclock, memnet
 
@@ -26,7 +33,9 @@ RULE = ('case = arrangement x blob set (1 byte .. 2 MiB, sd-blob JSON, content c
         'misbehaviour from the catalogue at a message position. distinct = hash(arrangement, misbehaviour, length class, known/unknown length, '
         'plans, position); non-trivial = everything except a single honest transfer with coalesce-all plans. request_cap: padded single-'
         'brace requests (sizes around and above the server\'s request cap) x fragmentation catalogue; slow_link: (idle, transfer) '
-        'timeout configuration x blob size x pace of the reader')
+        'timeout configuration x blob size x pace of the reader; stream: 3-6 blobs x 2-3 honest servers (holdings: blob i on server i mod n, '
+        'or random non-empty subsets) x optionally one scripted peer holding everything that is honest for its first 1-2 requests per '
+        'connection and then applies one misbehaviour from the catalogue')
 ASSUMPTIONS = ['the byte stream is modelled in memory (fragment boundaries are exactly the data_received calls a TCP stream could produce); '
                'no real sockets, so kernel-level behaviours (RST, half-open) are not exercised',
                'deadlines are virtual seconds: connect_timeout + 2 x peer_timeout for the client, idle_timeout + transfer_timeout for the server',
@@ -35,7 +44,10 @@ ASSUMPTIONS = ['the byte stream is modelled in memory (fragment boundaries are e
                'slow links are modelled by a send window on the in-memory stream: the writing transport tells its protocol to pause above '
                '64 KiB undelivered bytes and to resume below 16 KiB (asyncio defaults), deliveries are paced by the fragment plan',
                'an honest transfer is owed completion only if it needs less than the server\'s configured transfer_timeout; whether a stalled '
-               'transfer is cut at transfer_timeout or only by idle_timeout + transfer_timeout is logged, not judged']
+               'transfer is cut at transfer_timeout or only by idle_timeout + transfer_timeout is logged, not judged',
+               'stream family: a blob held by an honest reachable server is owed to the downloader within 20 x (connect_timeout + 2 x '
+               'peer_timeout) virtual seconds per blob (peers that failed are set aside for at most 30 s by the downloader); blob lengths '
+               'are known beforehand except for the first blob (as for a stream: descriptor first, then content blobs)']
 REQUIRED_HITS = ['X5.pair_checked', 'X2.orphan_file_blob', 'X5.race_checked', 'X1.checked', 'X2.honest_transfer', 'X2.blanks_content', 'X2.sequential_on_one_connection', 'X2.header_alone', 'X2.one_byte_fragments',
                  'X2.header_glued', 'X2.big_blob', 'X2.sd_blob', 'X3.client_liar_checked', 'X3.server_hostile_client_checked', 'X4.wire_checked',
                  'X4.not_held_request', 'X5.concurrent_honest_ok', 'X6.liar_then_honest', 'liar.wrong_hash', 'liar.wrong_length_unknown',
@@ -43,7 +55,9 @@ REQUIRED_HITS = ['X5.pair_checked', 'X2.orphan_file_blob', 'X5.race_checked', 'X
                  'liar.huge_header', 'liar.not_available', 'liar.price', 'liar.error_object', 'liar.second_header', 'hostile_client.oversize',
                  'hostile_client.invalid_json', 'hostile_client.invalid_hash', 'hostile_client.disconnect_mid_transfer', 'hostile_client.slow_partial',
                  'X7.request_verdict_checked', 'X7.refused_whole', 'X7.served_whole', 'X7.oversized_in_fragments_below_cap',
-                 'X8.slow_transfer_longer_than_idle_timeout', 'X8.stalled_reader_checked', 'X8.silent_connection_checked']
+                 'X8.slow_transfer_longer_than_idle_timeout', 'X8.stalled_reader_checked', 'X8.silent_connection_checked',
+                 'X9.relay_checked', 'X9.relay_after_race_for_unknown_length', 'X9.relay_after_stalling_loser_unknown_length',
+                 'X10.stream_checked', 'X10.partial_holders', 'X10.kept_peer_misbehaved_later', 'X10.peer_taken_back_after_being_set_aside']
 MAX = 2 * 1024 * 1024
 CT, PT = 3.0, 5.0            # client connect / peer timeouts (virtual s)
 IDLE, XFER = 30.0, 60.0      # server idle / transfer timeouts (virtual s)
@@ -53,6 +67,8 @@ LIARS = ['wrong_hash', 'wrong_length_shorter', 'wrong_length_longer', 'wrong_len
          'unknown_keys', 'not_available', 'price', 'error_object', 'second_header', 'silent', 'close_immediately', 'header_only_then_close']
 PAIR_LIARS = ['flip', 'short_close', 'short_stall', 'wrong_hash', 'junk_before_header', 'malformed_json', 'not_available', 'price', 'error_object',
               'second_header', 'silent', 'close_immediately', 'header_only_then_close', 'truthful_header_then_corrupt']
+STREAM_LIARS = ['flip', 'short_close', 'short_stall', 'wrong_hash', 'junk_before_header', 'malformed_json', 'not_available', 'price', 'error_object',
+                'second_header', 'silent', 'header_only_then_close', 'excess', 'wrong_length_shorter', 'wrong_length_longer']
 PADDINGS = ['extra_member', 'availability_list', 'leading_blanks']
 TIMEOUTS = [(2.0, 20.0), (30.0, 60.0), (20.0, 3.0), (5.0, 40.0), (60.0, 30.0)]     # server (idle, transfer) configurations of the slow_link family
 HOSTILE_CLIENT = ['oversize', 'invalid_json', 'non_dict_json', 'no_request_keys', 'wrong_types', 'deep_nesting', 'unknown_hash', 'invalid_hash',
@@ -64,7 +80,20 @@ def plan(tier):
 
 
 def shard_setup(rec, tier):
-    _TMP['dir'] = tempfile.mkdtemp(prefix='verif-c10-')
+    # memory-backed scratch space where there is one: every case opens 2-5 sqlite databases, and their commits (fsync) on a busy disk cost
+    # far more wall time than everything the check itself computes
+    shm = '/dev/shm' if os.path.isdir('/dev/shm') and os.access('/dev/shm', os.W_OK) else None
+    if shm:
+        # what shards that were killed (watchdog, a runner that stops at the first violation) left behind hours ago; a live shard touches
+        # its directory at every case and lives 45 minutes at most
+        for name in os.listdir(shm):
+            old = os.path.join(shm, name)
+            try:
+                if name.startswith('verif-c10-') and time.time() - os.stat(old).st_mtime > 3 * 3600:
+                    shutil.rmtree(old, ignore_errors=True)
+            except OSError:
+                pass
+    _TMP['dir'] = tempfile.mkdtemp(prefix='verif-c10-', dir=shm)
 
 
 def shard_finish(rec, tier):
@@ -85,8 +114,10 @@ def gen_cases(rng, tier, shard, nshards):
                   'known': i % 2 == 0} for i in range(28 if q else 500)])
     fams.append([{'fam': 'request_cap', 'seed': rng.getrandbits(48), 'padding': PADDINGS[(i + shard) % len(PADDINGS)]} for i in range(4 if q else 120)])
     fams.append([{'fam': 'slow_link', 'seed': rng.getrandbits(48), 'timeouts': list(TIMEOUTS[(i + shard) % len(TIMEOUTS)])} for i in range(4 if q else 80)])
+    fams.append([{'fam': 'stream', 'seed': rng.getrandbits(48), 'holdings': ['alternating', 'random'][(i // 2) % 2],
+                  'liar': None if i % 2 == 0 else STREAM_LIARS[(i // 2 + shard) % len(STREAM_LIARS)]} for i in range(12 if q else 300)])
     while any(fams):
-        for f, w in zip(fams, (1, 4, 1, 1, 1, 1, 1)):
+        for f, w in zip(fams, (1, 4, 1, 1, 1, 1, 1, 1)):
             for _ in range(w):
                 if f:
                     yield f.pop(0)
@@ -217,6 +248,58 @@ def check_wire(rec, wire, held, closed, label):
                 rec.log('X4.body_incomplete_connection_open')
             pos += len(body)
     return True
+
+
+async def check_relay(rec, loop, net, r, bm, base, h, content, addr, history):
+    """X9 (arrangement viii): the node behind blob manager `bm` has just downloaded blob h; now it is the server.  A third node asks it for
+    the blob (length unknown to it, as for any blob asked for by hash alone): X4 on the wire (header names exactly hash and length, the
+    bytes are the blob) and the third node ends with the verified, byte-identical blob.  `history` names how bm got the blob."""
+    from lbry.blob_exchange.server import BlobServerProtocol
+    from lbry.blob_exchange.client import request_blob
+    from lbry.blob.blob_file import BlobFile
+    rec.hit('X9.relay_checked')
+    held_len = bm.get_blob(h).get_length()
+    if held_len != len(content):
+        rec.log(f'X9.downloaded_blob_object_reports_length_{"none" if held_len is None else "wrong"}')
+    tdir = os.path.join(base, 'third-' + addr)
+    os.makedirs(tdir)
+    net.listen(addr, 3333, lambda: BlobServerProtocol(loop, bm, 'bQEaw42GXsgCAGio1nxFncJSyRmnztSCjP', IDLE, XFER))
+    style = r.choice(['all', 'mtu', 'first:30', 'rand']) if len(content) < 20000 else r.choice(['all', 'mtu', '64k'])
+    old_factory, old_delay = net.plan_factory, net.connect_delay
+    net.plan_factory = lambda d: make_plan(r, style if d == 's2c' else 'all')
+    net.connect_delay = 0.0
+    blob3 = BlobFile(loop, h, None, None, tdir)
+    n0 = len(net.connections)
+    protocol = None
+    try:
+        _, protocol = await request_blob(loop, blob3, addr, 3333, CT, PT)
+    except asyncio.CancelledError:
+        rec.log('request_blob_cancelled.relay')
+    except Exception as e:  # noqa
+        rec.log(f'request_blob_raised.relay.{type(e).__name__}')
+    finally:
+        net.plan_factory, net.connect_delay = old_factory, old_delay
+    for _ in range(5):
+        await asyncio.sleep(0)
+    ok3 = blob3.get_is_verified()
+    wire_ok = True
+    for conn in net.connections[n0:]:
+        wire_ok = check_wire(rec, conn.s2c.wire, {h: content}, conn.server_tr._lost, f'relay after {history}') and wire_ok
+    if ok3:
+        with open(os.path.join(tdir, h), 'rb') as f:
+            if f.read() != content:
+                rec.violation('C10/X1/verified-blob-bytes-differ/relay', f'third node verified bytes that are not the blob (relay after {history})', {})
+    else:
+        wire = bytes(net.connections[n0].s2c.wire[:300]) if len(net.connections) > n0 else b''
+        rec.violation(f'C10/X9/node-that-downloaded-the-blob-cannot-serve-it/{history}',
+                      f'a node downloaded a {len(content)}-byte blob ({history}) and holds it verified; a third node asking it for the blob ended '
+                      f'unverified (the serving node\'s blob object says length {held_len}; its answer began {wire[:160]!r})',
+                      {'history': history, 'length': len(content), 'serving_blob_length': held_len, 'plan_s2c': style, 'wire_ok': wire_ok,
+                       'answer_head': wire[:200], 'data_received_exceptions': net.data_received_exceptions[-3:]})
+    if protocol:
+        protocol.close()
+    blob3.close()
+    return ok3 and wire_ok
 
 
 # ------------------------------------------------------------------------------ arrangement (i): honest <-> honest
@@ -749,6 +832,11 @@ async def _race(rec, case, loop):
             with open(os.path.join(cdir, h), 'rb') as f:
                 if f.read() != content:
                     rec.violation(f'C10/X1/verified-blob-bytes-differ/race/{liars}', 'downloader finished with wrong bytes', {'liars': case['liars']})
+            # ---- X9: the downloading node now serves the blob to a third node
+            if not case['known']:
+                rec.hit('X9.relay_after_race_for_unknown_length')
+            await check_relay(rec, loop, net, r, cbm, base, h, content, '5.9.0.200',
+                              'downloader-race-' + ('known' if case['known'] else 'unknown') + '-length')
         rec.case(['race', sorted(case['liars']), cls, case['known'], style],
                  sample={'arrangement': 'race', 'liars': case['liars'], 'blob': cls, 'length': len(content), 'verified': ok,
                          'virtual_seconds': round(dt, 2), 'connections': len(net.connections)})
@@ -813,6 +901,14 @@ async def _pair(rec, case, loop):
             with open(os.path.join(cdir, h), 'rb') as f:
                 if f.read() != content:
                     rec.violation(f'C10/X1/verified-blob-bytes-differ/pair/{kind}', 'verified with wrong bytes', {'liar': kind})
+            # ---- X9: the downloading node now serves the blob to a third node.  With a liar that never finishes (silent, stalls after part
+            # of the bytes) its request is still open at the moment the honest transfer completes
+            if not case['known']:
+                rec.hit('X9.relay_after_race_for_unknown_length')
+                if kind in ('silent', 'short_stall'):
+                    rec.hit('X9.relay_after_stalling_loser_unknown_length')
+            await check_relay(rec, loop, net, r, cbm, base, h, content, '5.8.0.200',
+                              'two-concurrent-requests-' + ('known' if case['known'] else 'unknown') + '-length')
         else:
             rec.violation(f'C10/X5/concurrent-liar-broke-the-honest-transfer/{kind}',
                           f'liar ({kind}, answering {"first" if liar_first else "second"}) and an honest server were asked for the same {cls} blob '
@@ -829,6 +925,209 @@ async def _pair(rec, case, loop):
         cbm.stop()
         await sst.close()
         await cst.close()
+    finally:
+        shutil.rmtree(base, ignore_errors=True)
+
+
+# ------------------------------------------------------------------------------ arrangement (ix): one BlobDownloader, several blobs and peers
+class ScriptedPeer(Liar):
+    """holds every blob of `blobs`; on each connection the first `honest_first` requests are answered as an honest server would, the next
+    one according to `kind` (the Liar catalogue, applied to whatever blob that request names), later ones not at all"""
+    def __init__(self, loop, r, kind, blobs, other, honest_first, journal):
+        super().__init__(loop, r, kind, None, None, other)
+        self.blobs, self.honest_first, self.journal = blobs, honest_first, journal
+        self.nreq = 0
+        self.lied_at = None
+        self.answered = True        # Liar.data_received stays quiet until a request is handed to it below
+
+    def data_received(self, data):
+        self.buf += data
+        if self.lied_at is not None or b'}' not in self.buf:
+            return
+        raw, self.buf = self.buf, b''
+        try:
+            wanted = json.loads(raw.decode('latin1')).get('requested_blob')
+        except (ValueError, AttributeError):
+            return self.tr.close()
+        self.nreq += 1
+        if wanted not in self.blobs:
+            self.journal.append(('honest-no', wanted))
+            return self.tr.write(json.dumps({'available_blobs': [], 'blob_data_payment_rate': 'RATE_ACCEPTED'}).encode())
+        if self.nreq <= self.honest_first:
+            self.journal.append(('honest', wanted))
+            return self.tr.write(self.header(wanted, len(self.blobs[wanted])) + self.blobs[wanted])
+        self.journal.append(('lie', wanted))
+        self.lied_at = self.loop.time()
+        self.h, self.c, self.answered = wanted, self.blobs[wanted], False
+        self.buf = raw
+        Liar.data_received(self, b'')
+
+
+async def _stream(rec, case, loop):
+    """ONE real BlobDownloader (as StreamDownloader and blob_get use it) fetches several blobs one after the other.  Peers: 2-3 real
+    servers, every blob on at least one of them but none of them necessarily holding all; optionally a scripted peer that holds
+    everything, answers the first request(s) of every connection honestly (so that the downloader keeps the connection) and misbehaves
+    at the next one.  Whatever happened at earlier blobs - connections kept, peers set aside because they did not have a blob or lied -
+    every blob ends verified and byte-identical within the bound (X10), nothing else gets verified (X1), X4 on every real server's wire."""
+    boot.import_lbry()
+    from lbry.blob_exchange.server import BlobServerProtocol
+    from lbry.blob_exchange.downloader import BlobDownloader
+    from lbry.dht.peer import make_kademlia_peer
+    r = random.Random(case['seed'])
+    kind = case['liar']
+    base = tempfile.mkdtemp(dir=_TMP['dir'])
+    net = memnet.Net(loop)
+    net.install()
+    try:
+        n_srv = r.choice([2, 2, 3])
+        n_blobs = r.randrange(3, 7)
+        contents, seen = [], set()
+        while len(contents) < n_blobs:
+            c = blob_content(r, 'sd' if not contents and r.random() < 0.5 else r.choice(['tiny', 'small', 'small', 'mid', 'jsonlike']))
+            if sha384(c) not in seen:
+                seen.add(sha384(c))
+                contents.append(c)
+        hashes = [sha384(c) for c in contents]
+        if case['holdings'] == 'alternating':
+            first = r.randrange(n_srv)
+            holders = [{(first + i) % n_srv} for i in range(n_blobs)]
+        else:
+            holders = [set(r.sample(range(n_srv), r.choice([1, 1, 2]))) for _ in range(n_blobs)]
+        cbm, cst, cdir = await make_manager(loop, base, 'client')
+        servers, held_by, peers = [], {}, []
+        for j in range(n_srv):
+            bm, st, _ = await make_manager(loop, base, f'server{j}')
+            held = {}
+            for i, c in enumerate(contents):
+                if j in holders[i]:
+                    held[await add_blob(bm, c)] = c
+            addr = f'5.7.0.{j + 1}'
+            net.listen(addr, 3333, lambda bm=bm: BlobServerProtocol(loop, bm, 'bQEaw42GXsgCAGio1nxFncJSyRmnztSCjP', IDLE, XFER))
+            servers.append((bm, st))
+            held_by[addr] = held
+            peers.append(make_kademlia_peer(hashlib.sha384(b'stream-honest%d' % j).digest(), addr, tcp_port=3333))
+        journal = []
+        scripted = []
+        honest_first = None
+        if kind is not None:
+            honest_first = r.choice([1, 1, 2])
+            every = dict(zip(hashes, contents))
+            other = blob_content(r, 'small')
+
+            def scripted_factory():
+                scripted.append(ScriptedPeer(loop, r, kind, every, other, honest_first, journal))
+                return scripted[-1]
+            net.listen('5.7.0.66', 3333, scripted_factory)
+            peers.append(make_kademlia_peer(hashlib.sha384(b'stream-scripted').digest(), '5.7.0.66', tcp_port=3333))
+        r.shuffle(peers)
+        style = r.choice(['all', 'mtu', 'rand', 'first:30']) if max(map(len, contents)) < 20000 else r.choice(['all', 'mtu', '64k'])
+        base_plan = {d: make_plan(r, style if d == 's2c' else 'all') for d in ('s2c', 'c2s')}
+        lat = r.choice([0.001, 0.002, 0.01])       # some latency everywhere: see the race family
+        net.plan_factory = lambda d: (lambda avail, _p=base_plan[d]: (_p(avail)[0], lat))
+        net.connect_delay = 0.02
+        cconf = cbm.config
+        cconf.peer_connect_timeout, cconf.blob_download_timeout = CT, PT
+        pq = asyncio.Queue()
+        pq.put_nowait(list(peers))
+        dl = BlobDownloader(loop, cconf, cbm, pq)
+        bound = 20 * (CT + 2 * PT)
+        first_unknown = r.random() < 0.5
+        took, stuck = [], None
+        set_aside = set()           # addresses of honest servers that were asked for a blob they do not hold, of the scripted peer once it misbehaved
+
+        def asked_for(conn):
+            out, pos, w = [], 0, bytes(conn.c2s.wire).decode('latin1')
+            while pos < len(w):
+                try:
+                    obj, pos = json.JSONDecoder().raw_decode(w, pos)
+                except ValueError:
+                    break
+                out.append(obj.get('requested_blob') if isinstance(obj, dict) else None)
+            return out
+        for i, (h, c) in enumerate(zip(hashes, contents)):
+            t0 = loop.time()
+            ncon = len(net.connections)
+            try:
+                blob = await asyncio.wait_for(dl.download_blob(h, None if i == 0 and first_unknown else len(c)), bound)
+                ok = blob.get_is_verified()
+            except asyncio.TimeoutError:
+                blob, ok = cbm.get_blob(h), False
+            except Exception as e:  # noqa
+                rec.violation(f'C10/X10/downloader-raised/{type(e).__name__}', f'BlobDownloader.download_blob raised {e!r} at blob #{i + 1} of {n_blobs}',
+                              {'liar': kind, 'holdings': case['holdings']})
+                return
+            took.append(round(loop.time() - t0, 2))
+            rec.hit('X10.stream_checked')
+            if len(holders[i]) < n_srv:
+                rec.hit('X10.partial_holders')
+            for conn in net.connections[ncon:]:
+                a = conn.client_tr.get_extra_info('peername')[0]
+                if a in set_aside:
+                    rec.hit('X10.peer_taken_back_after_being_set_aside')
+            for conn in net.connections:
+                a = conn.client_tr.get_extra_info('peername')[0]
+                if a in held_by and any(x not in held_by[a] for x in asked_for(conn)):
+                    set_aside.add(a)
+            if any(s.lied_at is not None for s in scripted):
+                set_aside.add('5.7.0.66')
+            if not ok:
+                stuck = i
+                lied = [w for w, _ in journal].count('lie')
+                hist = 'partial-holders-only' if kind is None else (f'kept-peer-then-{kind}' if lied else f'peer-{kind}-not-yet-misbehaving')
+                rec.violation(f'C10/X10/blob-held-by-honest-server-never-downloaded/{hist}',
+                              f'one BlobDownloader, {n_blobs} blobs, {n_srv} honest servers (blob i held by servers {[sorted(x) for x in holders]}), scripted '
+                              f'peer holding all: {f"{kind} after {honest_first} honest answer(s) on each connection" if kind else "none"}; blobs #1..#{i} took {took[:-1]} virtual s, '
+                              f'blob #{i + 1} ({len(c)} bytes, held by honest server(s) {sorted(holders[i])}) was not downloaded within {bound:.0f} virtual s '
+                              f'(downloader: {len(getattr(dl, "ignored", ()))} peers set aside, {len(getattr(dl, "connections", ()))} connections kept, '
+                              f'{len(getattr(dl, "active_connections", ()))} requests active; {len(net.connections)} connections made)',
+                              {'liar': kind, 'holdings': case['holdings'], 'holders': [sorted(x) for x in holders], 'stuck_at_blob': i + 1,
+                               'virtual_seconds_per_blob': took, 'scripted_peer_journal': [w for w, _ in journal][-12:],
+                               'first_length_unknown': first_unknown, 'lengths': [len(x) for x in contents]})
+                break
+            with open(os.path.join(cdir, h), 'rb') as f:
+                if f.read() != c:
+                    rec.violation('C10/X1/verified-blob-bytes-differ/stream' + (f'/{kind}' if kind else ''), f'blob #{i + 1} verified with wrong bytes',
+                                  {'liar': kind})
+                    stuck = i
+                    break
+        if any(w == 'lie' for w, _ in journal) and any(s.nreq > 1 and s.lied_at is not None for s in scripted):
+            rec.hit('X10.kept_peer_misbehaved_later')
+        # ---- X3 at this message position: a connection on which the peer misbehaved is closed by the client within its timeouts
+        deadline = CT + 2 * PT
+        for s in scripted:
+            # (only misbehaviours that never include the complete correct bytes: after those the connection may rightly be kept)
+            if s.lied_at is not None and kind in ('flip', 'short_close', 'short_stall', 'wrong_hash', 'silent', 'header_only_then_close') and \
+                    loop.time() - s.lied_at > deadline + 0.01:
+                conn = next((cn for cn in net.connections if cn.server_tr is s.tr), None)
+                if conn is not None and not conn.client_tr._lost and not conn.client_tr._closing:
+                    rec.violation(f'C10/X3/client-connection-left-open/later-request/{kind}', f'connection on which the peer misbehaved ({kind}) at request '
+                                  f'#{s.nreq} is still open {loop.time() - s.lied_at:.1f} virtual s later', {'liar': kind, 'request_on_connection': s.nreq})
+        dl.close()
+        for _ in range(5):
+            await asyncio.sleep(0)
+        # ---- X1: nothing but the blobs asked for, each with its bytes, is on the client's disk
+        for name in os.listdir(cdir):
+            if len(name) == 96 and name not in hashes:
+                rec.violation('C10/X1/verified-blob-nobody-asked-for/stream', 'a blob file that was never asked for is on the client\'s disk', {'liar': kind})
+        for conn in net.connections:
+            a = conn.client_tr.get_extra_info('peername')[0]
+            if a in held_by:
+                check_wire(rec, conn.s2c.wire, held_by[a], conn.server_tr._lost, 'stream')
+        # ---- X9: the first blob (unknown length in half of the cases, possibly raced between several holders) served on to a third node
+        if stuck != 0:
+            if first_unknown:
+                rec.hit('X9.relay_after_race_for_unknown_length')
+            await check_relay(rec, loop, net, r, cbm, base, hashes[0], contents[0], '5.7.0.200',
+                              'several-blobs-one-downloader-' + ('unknown' if first_unknown else 'known') + '-length')
+        rec.case(['stream', case['holdings'], kind, n_srv, n_blobs, [sorted(x) for x in holders], style, first_unknown],
+                 sample={'arrangement': 'stream', 'holdings': [sorted(x) for x in holders], 'scripted_peer': kind, 'lengths': [len(x) for x in contents],
+                         'virtual_seconds_per_blob': took, 'connections': len(net.connections), 'scripted_peer_journal': [w for w, _ in journal][:12],
+                         'first_length_unknown': first_unknown})
+        cbm.stop()
+        await cst.close()
+        for bm, st in servers:
+            bm.stop()
+            await st.close()
     finally:
         shutil.rmtree(base, ignore_errors=True)
 
@@ -1196,5 +1495,5 @@ async def _slow_link(rec, case, loop):
 
 def execute(rec, case):
     fam = {'honest': _honest, 'liar': _liar, 'hostile_client': _hostile_client, 'race': _race, 'pair': _pair, 'request_cap': _request_cap,
-           'slow_link': _slow_link}[case['fam']]
+           'slow_link': _slow_link, 'stream': _stream}[case['fam']]
     vclock.run(lambda loop: fam(rec, case, loop), wall_timeout=300)
